@@ -49,7 +49,7 @@ theorem dec_inv (o : Opts) (hd : DecSideOK o) : ∀ (f : Nat) (dt : Bool) (t : T
       exact ⟨ps, rfl, a, b, c⟩
     cases t
     case any =>
-      simp only [dec] at h
+      simp only [dec, lenLt_eq, decide_eq_true_eq] at h
       split at h
       · rename_i r0 dt' hg
         simp at h; obtain ⟨rfl, rfl⟩ := h
@@ -84,7 +84,7 @@ theorem dec_inv (o : Opts) (hd : DecSideOK o) : ∀ (f : Nat) (dt : Bool) (t : T
       · simp at h
       · simp at h
     case slice t' =>
-      simp only [dec] at h
+      simp only [dec, lenLt_eq, decide_eq_true_eq] at h
       cases bs with
       | nil => simp at h
       | cons b r0 =>
@@ -106,7 +106,7 @@ theorem dec_inv (o : Opts) (hd : DecSideOK o) : ∀ (f : Nat) (dt : Bool) (t : T
             | none => simp [hb] at d
             | some e => simp [encB, hb]
     case array n t' =>
-      simp only [dec] at h
+      simp only [dec, lenLt_eq, decide_eq_true_eq] at h
       cases bs with
       | nil =>
         simp at h
@@ -123,7 +123,7 @@ theorem dec_inv (o : Opts) (hd : DecSideOK o) : ∀ (f : Nat) (dt : Bool) (t : T
         | none => simp [hb] at d
         | some e => simp [encB, hb, c]
     case map kt vt =>
-      simp only [dec] at h
+      simp only [dec, lenLt_eq, decide_eq_true_eq] at h
       cases bs with
       | nil => simp at h
       | cons b r0 =>
@@ -145,7 +145,7 @@ theorem dec_inv (o : Opts) (hd : DecSideOK o) : ∀ (f : Nat) (dt : Bool) (t : T
             | none => simp [hb] at d
             | some e => simp [encB, hb]
     case struct nm fs =>
-      simp only [dec] at h
+      simp only [dec, lenLt_eq, decide_eq_true_eq] at h
       split at h <;> simp at h
       rename_i vs r' hv
       obtain ⟨rfl, rfl⟩ := h
@@ -153,7 +153,7 @@ theorem dec_inv (o : Opts) (hd : DecSideOK o) : ∀ (f : Nat) (dt : Bool) (t : T
       refine ⟨by simp [Val.depth]; omega, b', ?_⟩
       simpa [encB] using d
     case marsh nm sz =>
-      simp only [dec] at h
+      simp only [dec, lenLt_eq, decide_eq_true_eq] at h
       split at h; · simp at h
       rename_i l r0 h32
       obtain ⟨_, hl⟩ := rd32_inv _ _ _ h32
@@ -164,7 +164,7 @@ theorem dec_inv (o : Opts) (hd : DecSideOK o) : ∀ (f : Nat) (dt : Bool) (t : T
     case named nm t' =>
       cases t'
       case slice t'' =>
-        simp only [dec] at h
+        simp only [dec, lenLt_eq, decide_eq_true_eq] at h
         cases bs with
         | nil => simp at h
         | cons b r0 =>
@@ -183,7 +183,7 @@ theorem dec_inv (o : Opts) (hd : DecSideOK o) : ∀ (f : Nat) (dt : Bool) (t : T
             | none => simp [hb] at d
             | some e => simp [encB, hb]
       case array n t'' =>
-        simp only [dec] at h
+        simp only [dec, lenLt_eq, decide_eq_true_eq] at h
         cases bs with
         | nil =>
           simp at h
@@ -200,7 +200,7 @@ theorem dec_inv (o : Opts) (hd : DecSideOK o) : ∀ (f : Nat) (dt : Bool) (t : T
           | none => simp [hb] at d
           | some e => simp [encB, hb, c]
       case map kt vt =>
-        simp only [dec] at h
+        simp only [dec, lenLt_eq, decide_eq_true_eq] at h
         cases bs with
         | nil => simp at h
         | cons b r0 =>
